@@ -17,7 +17,7 @@ RULE = (
     'above >= 2 knots with a conductivity ratio >= 100 between neighbours; distinct by (parameter digest, level).'
 )
 ASSUMPTIONS = ['levels above the highest knot are outside the property (the code refuses them with NotImplementedError)']
-SIZES = {'quick': dict(sets=1000, levels=24), 'thorough': dict(sets=12000, levels=40)}
+SIZES = {'quick': dict(sets=1000, levels=24, dump=40), 'thorough': dict(sets=12000, levels=40, dump=1000)}
 REQUIRED = {
     tier: {
         'values-vs-closed-form': 4000,
@@ -29,6 +29,7 @@ REQUIRED = {
         'shuffled-array-vs-scalar': 200,
         'integer-levels': 200,
         'narrow-spike-sets': 40,
+        'dumped-T-values-checked': 200,
         'sets-sharing-knot-positions-with-the-previous-one': 50,
     }
     for tier in ('quick', 'thorough')
@@ -148,8 +149,35 @@ def check_set(ctx, rng, params, nlevels):
         rec.sample({'knots_mm': knots, 'K_km_d': K, 'T_min': tmin, 'levels': levels[:5], 'T': values[:5]})
 
 
+def check_dump(ctx, rng):
+    from .. import dump_cli
+
+    rec = ctx.rec
+    rec.case()
+    pT = gen_params.spline_T(rng)
+    params = {'specific_yield': gen_params.spline_sy(rng), 'transmissivity': pT}
+    knots = [float(v) for v in pT['zeta_knots_mm']]
+    K = [float(v) for v in pT['K_knots_km_d']]
+    lo_cm = (knots[0] - rng.uniform(0, 200)) / 10
+    hi_cm = (knots[0] + rng.uniform(0.05, 1.0) * (knots[-1] - knots[0])) / 10
+    rows, err = dump_cli.run_dump(ctx, 'transmissivity', params, lo_cm, hi_cm, rng.randint(3, 25))
+    case = {'kind': 'dump', 'params': pT, 'range_cm': [lo_cm, hi_cm]}
+    if err:
+        rec.violation('plot-transmissivity-dump-fails', {'error': err}, case, 'dump')
+        return
+    for z_cm, v in rows:
+        exp = oh.transmissivity_closed_form(z_cm * 10, knots, K, float(pT['minimum_transmissivity_m2_d']))
+        if abs(v - exp) > 1e-9 * abs(exp):
+            rec.violation('dumped-transmissivity-differs-from-minimum-plus-integral', {'level_cm': z_cm, 'dumped': v, 'expected': exp, 'params': pT}, case, 'dump')
+            return
+    rec.hit('dumped-T-values-checked', len(rows))
+
+
 def run(ctx):
     s = SIZES[ctx.tier]
+    rng = ctx.rng('dump')
+    for _ in range(ctx.share(s.get('dump', 0))):
+        check_dump(ctx, rng)
     rng = ctx.rng('T')
     for i in range(ctx.share(s['sets'])):
         params = gen_params.spline_T(rng)
